@@ -7,6 +7,7 @@ import (
 	"os"
 	"path"
 	"path/filepath"
+	"sort"
 	"strings"
 	"sync"
 	"text/scanner"
@@ -89,10 +90,71 @@ func ParseFile(file string) (directives.File, error) {
 	return p.ParseFile()
 }
 
-// loadedFiles is the set of files which are being loaded or have been loaded.
+// loadedFiles is the set of files which are being loaded or have been loaded,
+// together with the include directives seen so far.
 type loadedFiles struct {
-	mutex sync.Mutex
-	files map[string]bool
+	mutex    sync.Mutex
+	files    map[string]bool
+	includes map[string][]string
+}
+
+// include records that file includes target.
+func (l *loadedFiles) include(file, target string) {
+	l.mutex.Lock()
+	defer l.mutex.Unlock()
+	file, target = path.Clean(file), path.Clean(target)
+	l.includes[file] = append(l.includes[file], target)
+}
+
+// cycle returns an include cycle, if there is one. A file which is included
+// from several places is loaded once, by whichever include is seen first, so a
+// cycle does not necessarily show up in the chain of includes of any one file.
+func (l *loadedFiles) cycle() []string {
+	l.mutex.Lock()
+	defer l.mutex.Unlock()
+	files := make([]string, 0, len(l.includes))
+	for f := range l.includes {
+		files = append(files, f)
+	}
+	sort.Strings(files)
+	const (
+		visiting = 1
+		done     = 2
+	)
+	state := make(map[string]int)
+	var chain []string
+	var visit func(f string) []string
+	visit = func(f string) []string {
+		state[f] = visiting
+		chain = append(chain, f)
+		targets := append([]string(nil), l.includes[f]...)
+		sort.Strings(targets)
+		for _, t := range targets {
+			switch state[t] {
+			case visiting:
+				for i, c := range chain {
+					if c == t {
+						return append(append([]string(nil), chain[i:]...), t)
+					}
+				}
+			case 0:
+				if c := visit(t); c != nil {
+					return c
+				}
+			}
+		}
+		chain = chain[:len(chain)-1]
+		state[f] = done
+		return nil
+	}
+	for _, f := range files {
+		if state[f] == 0 {
+			if c := visit(f); c != nil {
+				return c
+			}
+		}
+	}
+	return nil
 }
 
 // claim reports whether the caller is the first one to ask for the file.
@@ -110,7 +172,7 @@ func (l *loadedFiles) claim(file string) bool {
 func ParseFileRecursively(file string) (<-chan directives.File, func(context.Context) error) {
 	return cpr.Produce(func(ctx context.Context, ch chan<- directives.File) error {
 		wg, ctx := errgroup.WithContext(ctx)
-		loaded := &loadedFiles{files: make(map[string]bool)}
+		loaded := &loadedFiles{files: make(map[string]bool), includes: make(map[string][]string)}
 		loaded.claim(file)
 		wg.Go(func() error {
 			res, err := parseRec(ctx, wg, ch, loaded, file, nil)
@@ -119,7 +181,13 @@ func ParseFileRecursively(file string) (<-chan directives.File, func(context.Con
 			}
 			return cpr.Push(ctx, ch, res)
 		})
-		return wg.Wait()
+		if err := wg.Wait(); err != nil {
+			return err
+		}
+		if c := loaded.cycle(); c != nil {
+			return fmt.Errorf("include cycle: %s is included from itself (%s)", c[0], strings.Join(c, " -> "))
+		}
+		return nil
 	})
 }
 
@@ -154,7 +222,9 @@ func parseRec(ctx context.Context, wg *errgroup.Group, resCh chan<- directives.F
 	}
 	p.Callback = func(d directives.Directive) {
 		if inc, ok := d.Directive.(directives.Include); ok {
+			parent := file
 			file := path.Join(filepath.Dir(file), inc.IncludePath.Content.Extract())
+			loaded.include(parent, file)
 			if !isAncestor(ancestors, file) && !loaded.claim(file) {
 				// included from several places (not a cycle): its directives are part
 				// of the journal once. Loading it once per include path is exponential
